@@ -23,7 +23,7 @@ RULE = ("a real RF24Mesh master on a simulated radio; address requests injected 
         "Non-trivial: >=1 lease granted or refused; distinct = distinct event histories.")
 REQUIRED = {"table_injective": 20000, "reply_checks": 5000, "release_reassign": 40,
             "persistence_roundtrip": 150, "persistence_after_changes": 500}
-BUDGET = {"quick": 150, "thorough": 600}
+BUDGET = {"quick": 480, "thorough": 900}
 
 VIAS = [0o4444, 0o2, 0o32]
 IDS = [7, 8, 9]
